@@ -444,6 +444,20 @@ func runC18(c *Ctx) {
 				})
 				okErr := f1 && (s1 == setCalled)
 				R.Check(cbCalled && okErr, "R18.3", fmt.Sprintf("cache.GetWithExpiration#miss[err==nil:%v]", s1), rp.Ret.Pos(), fn, "on a miss the callback runs and its result is stored exactly when err == nil", fmt.Sprintf("on a miss: callback called=%v, err tested=%v, err==nil=%v, Set called=%v: failures must never be cached and successes must be", cbCalled, f1, s1, setCalled))
+				// what a miss hands back is what the callback produced: its error when it failed (never a substitute value with a
+				// nil error: a remembered older answer would outlive the caller's expiry), its value when it succeeded
+				fromCb := func(t *core.Term, idx string) bool {
+					return t.Has(func(x *core.Term) bool {
+						return x.Op == "extract" && x.Name == idx && len(x.Args) == 1 && x.Args[0].Op == "call" && strings.Contains(x.Args[0].String(), "param:")
+					})
+				}
+				if f1 && cbCalled && len(rp.Results) == 2 {
+					if s1 {
+						R.Check(fromCb(rp.Results[0], "0") && rp.Results[1].IsConst("nil") || fromCb(rp.Results[1], "1"), "R18.3", "cache.GetWithExpiration#miss-returns[ok]", rp.Ret.Pos(), fn, "a successful miss returns the callback's value", "after a successful callback the function returns "+rp.Results[0].String()+", not the callback's value")
+					} else {
+						R.Check(!rp.Results[1].IsConst("nil") && fromCb(rp.Results[1], "1"), "R18.3", "cache.GetWithExpiration#miss-returns[failed]", rp.Ret.Pos(), fn, "a failed miss returns the callback's error", "after a failed callback the function returns ("+rp.Results[0].String()+", "+rp.Results[1].String()+"): the failure is replaced by a substitute answer with no error, so a value older than the caller's expiry (or one that was never valid for this key) is served as a fresh success")
+					}
+				}
 			}
 		}
 	}
